@@ -18,7 +18,7 @@ static int h_readline(void) {
     return 1;
 }
 
-#define H_MAXTOK 64
+#define H_MAXTOK 262144
 static char* h_tok[H_MAXTOK];
 static int h_ntok;
 static void h_split(void) {
